@@ -67,6 +67,7 @@ def build(u):
     emit_struct(u, T, 'RawToken', keep_derive=True)
     u.spec('vlq.rs')
     u.spec('mappings.rs')
+    u.spec('bits.rs')
     u.spec('mappings_dec.rs')
     # proved in U1
     f = u.get_fn('src/vlq.rs', 'parse_vlq_segment_into')
